@@ -955,6 +955,69 @@ fn build_seeds() -> Vec<Seed> {
         let lp = LibraryPath::new(p).expect("library path");
         add(&format!("path:{p}"), Dec::LibraryPath, Serializable::to_bytes(&lp), None, vec![]);
     }
+    // crafted path strings around the documented length limits (a component: 255 bytes, a whole path: 1023
+    // bytes): plain ASCII of length limit-1, limit, limit+1, and strings in which a 2-, 3- or 4-byte UTF-8
+    // character starts at every offset from limit-4 to limit (so that it ends at, straddles or starts at
+    // the limit). Most of them are invalid paths: the decoders must answer with an error, never a panic.
+    // Each string is observed as a bare LibraryPath and spliced into a program's import table, a module's
+    // import table and a library's module path.
+    {
+        let enc = |sb: &[u8]| {
+            let mut v = (sb.len() as u16).to_le_bytes().to_vec();
+            v.extend_from_slice(sb);
+            v
+        };
+        let mut strings: Vec<(String, Vec<u8>)> = vec![];
+        for (limit, lead) in [(255usize, String::from("std::")), (1023usize, format!("{0}::{0}::{0}::{0}::", "a".repeat(250)))] {
+            // for the component limit the counted string starts after `lead`; for the path limit at byte 0
+            let base = if limit == 255 { 0 } else { lead.len() };
+            for n in [limit - 1, limit, limit + 1] {
+                let mut sb = lead.clone().into_bytes();
+                sb.extend(std::iter::repeat(b'a').take(n - base));
+                strings.push((format!("ascii{n}/limit{limit}"), sb));
+            }
+            for mb in ["\u{e9}", "\u{20ac}", "\u{1f600}"] {
+                for start in limit - 4..=limit {
+                    let mut sb = lead.clone().into_bytes();
+                    sb.extend(std::iter::repeat(b'a').take(start - base));
+                    sb.extend_from_slice(mb.as_bytes());
+                    sb.extend_from_slice(b"bb");
+                    strings.push((format!("utf8x{}@{start}/limit{limit}", mb.len()), sb));
+                }
+            }
+        }
+        let placeholder = "zzplaceholder::q";
+        let prog = parse_program(&format!("use.{placeholder}\nbegin exec.q::foo end")).to_bytes(with);
+        let module = parse_module(&format!("use.{placeholder}\nexport.g exec.q::foo end")).to_bytes(with);
+        let lib = Serializable::to_bytes(&small_library(false));
+        let splice = |container: &[u8], old: &str, new_enc: &[u8]| -> Vec<u8> {
+            let pat = enc(old.as_bytes());
+            let at = container.windows(pat.len()).position(|w| w == &pat[..]).expect("placeholder path in the container encoding");
+            let mut v = container[..at].to_vec();
+            v.extend_from_slice(new_enc);
+            v.extend_from_slice(&container[at + pat.len()..]);
+            v
+        };
+        for (name, sb) in &strings {
+            let e = enc(sb);
+            add(&format!("crafted:path:{name}"), Dec::LibraryPath, e.clone(), None, vec![]);
+            add(&format!("crafted:program-import:{name}"), Dec::ProgramAst, splice(&prog, placeholder, &e), None, vec![]);
+            add(&format!("crafted:module-import:{name}"), Dec::ModuleAst, splice(&module, placeholder, &e), None, vec![]);
+            add(&format!("crafted:library-module-path:{name}"), Dec::Masl, splice(&lib, "arith", &e), None, vec![]);
+        }
+    }
+    // crafted procedure names (u8 length prefix): a multi-byte character at the start, around offset 100 and
+    // at the end of the longest encodable name
+    for mb in ["\u{e9}", "\u{20ac}", "\u{1f600}"] {
+        for start in [0usize, 1, 2, 98, 99, 100, 101, 248, 249, 250] {
+            let mut sb: Vec<u8> = std::iter::repeat(b'a').take(start).collect();
+            sb.extend_from_slice(mb.as_bytes());
+            sb.push(b'b');
+            let mut e = vec![sb.len() as u8];
+            e.extend_from_slice(&sb);
+            add(&format!("crafted:proc-name:utf8x{}@{start}", mb.len()), Dec::ProcedureName, e, None, vec![]);
+        }
+    }
     add("path:kernel_path()", Dec::LibraryPath, Serializable::to_bytes(&LibraryPath::kernel_path()), None, vec![]);
     add("path:exec_path()", Dec::LibraryPath, Serializable::to_bytes(&LibraryPath::exec_path()), None, vec![]);
     add(
@@ -1751,7 +1814,11 @@ pub fn run(ctx: &Ctx, replay: Option<&Value>) -> i32 {
         let len = s.bytes.len();
         let big = len > 8192;
         let mut specs: Vec<String> = vec!["raw".into()];
-        if !big {
+        // crafted inputs are points of their own family (strings around the length limits): observed as
+        // they are, without the mutation families
+        let crafted = s.name.starts_with("crafted:");
+        if crafted {
+        } else if !big {
             specs.push("flip1:all".into());
             specs.push("trunc:all".into());
             specs.push("field:all".into());
@@ -1778,7 +1845,7 @@ pub fn run(ctx: &Ctx, replay: Option<&Value>) -> i32 {
             offs.dedup();
             specs.push(format!("field:at:{}", offs.iter().map(|o| o.to_string()).collect::<Vec<_>>().join(",")));
         }
-        if thorough {
+        if thorough && !crafted {
             specs.push("flip2:32".into());
         }
         let mut cases = 0;
